@@ -521,7 +521,7 @@ func schedSubCheck(h *H, n int, themes []string, keep func(sig string) bool) {
 					h.t.Errorf("HARNESS-ERROR corpus %s: %v", e.Name(), err)
 					continue
 				}
-				for rep := 0; rep < 3; rep++ {
+				for rep := 0; rep < 8; rep++ {
 					f := run(sc, nil)
 					h.Case(evid.HashJSON(sc)+uint64(rep), true, "scheduled:saved-corpus")
 					if f != nil && strings.HasPrefix(f.Sig, "harness-") {
@@ -560,7 +560,7 @@ func keepC09(sig string) bool { return strings.HasPrefix(sig, "fenced-path-reach
 // keepC05: the File lifecycle (closed exactly once, never used after or during
 // its Close, Handle returns), with connections ending in the middle of schedules.
 func keepC05(sig string) bool {
-	for _, p := range []string{"use-after-close", "double-close", "close-during-call", "closed-", "handle-did-not-return"} {
+	for _, p := range []string{"use-after-close", "double-close", "close-during-call", "closed-", "handle-did-not-return", "request-never-answered"} {
 		if strings.HasPrefix(sig, p) {
 			return true
 		}
